@@ -175,6 +175,20 @@ def degap_obs(aln):
     return [[id_of(n), d[n]] for n in aln.names]
 
 
+def ro_values(aln):
+    """the read-only methods the model states as functions of the rows (Model/Aligned.v al_positions ...)"""
+    if len(aln) == 0 or str(aln.moltype.label) not in ("dna", "rna", "protein"):
+        return None
+    return [
+        [id_of(n) for n in aln.names],
+        int(len(aln)),
+        ["".join(str(c) for c in col) for col in aln.positions],
+        [[bool(x) for x in row] for row in numpy.asarray(aln.get_gap_array()).tolist()],
+        [int(x) for x in numpy.asarray(aln.count_gaps_per_pos().array).tolist()],
+        bool(aln.is_ragged()),
+    ]
+
+
 def probe():
     """behavioural probes for the pinned / repaired variants (Model/Aligned.v [variant])"""
     from cogent3 import make_aligned_seqs
@@ -290,7 +304,13 @@ def run_case(case):
         dg = degap_obs(aln)
     except Exception as e:  # noqa: BLE001
         dg = {"exc": exc_code(e), "cls": type(e).__name__}
-    return {"first": first, "steps": steps, "degap": dg}
+    ro = None
+    if not case.get("indep"):
+        try:
+            ro = ro_values(aln)
+        except Exception as e:  # noqa: BLE001
+            ro = {"exc": exc_code(e), "cls": type(e).__name__, "msg": str(e)[:200]}
+    return {"first": first, "steps": steps, "degap": dg, "ro_values": ro}
 
 
 if __name__ == "__main__":
